@@ -108,7 +108,7 @@ func (s *JavaFullListener) exitBody() {
 	}
 
 	if currentNode.NodeName == "" {
-		currentNode = core_domain.NewDataStruct()
+		currentNode = nextNodeOfFile()
 		initClass()
 		return
 	}
@@ -131,10 +131,21 @@ func (s *JavaFullListener) exitBody() {
 			currentNode = &classNodeQueue[len(classNodeQueue)-1]
 		}
 	} else {
-		currentNode = core_domain.NewDataStruct()
+		currentNode = nextNodeOfFile()
 	}
 
 	initClass()
+}
+
+// nextNodeOfFile starts the node of a further type of the file that is being walked: the package and the imports are
+// written once, when their declarations are met, so a node started later takes them over from the listener's state
+func nextNodeOfFile() *core_domain.CodeDataStruct {
+	node := core_domain.NewDataStruct()
+	node.Package = currentPkg
+	for _, importText := range imports {
+		node.Imports = append(node.Imports, core_domain.NewJImport(importText))
+	}
+	return node
 }
 
 func (s *JavaFullListener) EnterPackageDeclaration(ctx *parser.PackageDeclarationContext) {
